@@ -213,6 +213,11 @@ def obligations(tier, seed):
         n = 19 + len(body) + 19
         if quick:
             cutsets = [[1], [16], [17], [18], [19], [19 + len(body)], [n - 1], [18, 19], [16, 20], 'bytewise']
+            if body:
+                # first message split after its header, the segment that completes it also carries the beginning
+                # (less than a header / exactly a header) of the next one
+                m1 = 19 + len(body)
+                cutsets += [[19 + (len(body) + 1) // 2, m1 + 5], [m1 - 1, m1 + 18], [20, m1 + 1], [m1 - 1, m1 + 19]]
         else:
             cutsets = [[c] for c in range(1, n)] + [[a, b] for a in range(1, n) for b in range(a + 1, n)
                                                     if (a in (1, 15, 16, 17, 18, 19, 20) or b in (18, 19, 20, n - 1))] + ['bytewise']
